@@ -3,7 +3,7 @@
    enc/dec and the compute callbacks are arbitrary; the only codec premise is dec (enc v) = v for successful
    encodes.  sc : nat -> bool is the fault script: one position per codec/store call, in call order. *)
 From Coq Require Import NArith List Bool.
-From Verif.C06_Typed Require Import Model StoreModel Corr Proofs StoreProofs Examples Mutex.
+From Verif.C06_Typed Require Import Model StoreModel ErrTree Corr Proofs StoreProofs Examples Mutex.
 Import ListNotations.
 
 (* a freshly constructed TypedValue over any raw contents is coherent *)
@@ -136,6 +136,58 @@ Theorem C06_store_iterate : forall (K V : Type) encK decK encV decV sc s p pre b
   (e = Some EDecode -> (length l < length (entries pre bw s))%nat).
 Proof. exact siterate_delivers. Qed.
 
+(* ---- error classification (ErrTree.v) ----
+   The theorems above speak about CLASSES: "this store call fails" (fault script), "the key is absent", the callback
+   answers CNew / CNotChanged / CFail.  The code derives those classes from Go errors with ierrors.Is.  With
+   contains = errors.Is on error trees (Unwrap() error and Unwrap() []error; tied to ierrors.Is by the harness),
+   the class is a function of the set of leaves, a sentinel is found wherever it sits, and a context that holds no
+   sentinel of its own (every shape the harness presents errors in; ierrors.Wrap added by TypedValue itself) does not
+   change what an error means - so the error shape is a parameter the model does not need to look at. *)
+Theorem C06_is_finds_anywhere : forall c e t, contains t e = true -> contains t (plug c e) = true.
+Proof. exact contains_plug. Qed.
+
+Theorem C06_class_by_membership : forall t e, contains t e = true <-> In t (leaves e).
+Proof. exact contains_In. Qed.
+
+Theorem C06_class_shape_independent : forall c e,
+  ctx_clean c ->
+  (forall t, is_sentinel t = true -> contains t (plug c e) = contains t e) /\
+  abs_get (plug c e) = abs_get e /\
+  (forall V (v : V), abs_cb v (Some (plug c e)) = abs_cb v (Some e)) /\
+  classify (plug c e) = classify e.
+Proof.
+  intros c e Hc; repeat split.
+  - intros t Ht; now apply class_plug.
+  - unfold abs_get; now rewrite class_plug.
+  - intros V v; unfold abs_cb; now rewrite class_plug.
+  - now apply classify_plug.
+Qed.
+
+Theorem C06_harness_shapes : forall sh,
+  ctx_clean (shape_ctx sh) /\
+  abs_get (shape_apply sh (ELeaf id_not_found)) = GNotFound /\
+  abs_get (shape_apply sh (ELeaf id_injected)) = GFailure /\
+  (forall V (v : V), abs_cb v (Some (shape_apply sh (ELeaf id_not_changed))) = CNotChanged) /\
+  (forall V (v : V), abs_cb v (Some (shape_apply sh (ELeaf id_compute))) = CFail).
+Proof.
+  intros sh; repeat split.
+  - apply shape_is_context.
+  - apply not_found_any_shape.
+  - apply fault_any_shape.
+  - intros; apply not_changed_any_shape.
+  - intros; apply compute_failure_any_shape.
+Qed.
+
+Example C06_tree_shapes_nontrivial :
+  shape_apply 11%nat (ELeaf id_not_found) = EMulti [EWrap noise; ELeaf id_not_found] /\
+  contains id_not_found (shape_apply 11%nat (ELeaf id_not_found)) = true /\
+  contains_chain_only id_not_found (shape_apply 11%nat (ELeaf id_not_found)) = false /\
+  abs_cb 0%nat (Some (shape_apply 6%nat (ELeaf id_not_changed))) = CNotChanged /\
+  contains_chain_only id_not_changed (shape_apply 6%nat (ELeaf id_not_changed)) = false /\
+  abs_get (shape_apply 17%nat (ELeaf id_injected)) = GFailure /\
+  first_tag (EMulti [EWrap noise; EMulti [ELeaf 10%nat; ELeaf 9%nat]; ELeaf 11%nat]) = Some 10%nat.
+Proof. exact tree_shapes_nontrivial. Qed.
+
 (* non-vacuity: Examples.v (coherent_nontrivial, ex_hist_results, nlu_nontrivial, ts_nontrivial, decV_encV) *)
 Example C06_codec_premise_holds : forall v b, encV v = Some b -> decV b = Some v.
 Proof. exact decV_encV. Qed.
@@ -164,3 +216,7 @@ Print Assumptions C06_store_failure_atomic.
 Print Assumptions C06_store_last_written.
 Print Assumptions C06_store_set_get.
 Print Assumptions C06_store_iterate.
+Print Assumptions C06_is_finds_anywhere.
+Print Assumptions C06_class_by_membership.
+Print Assumptions C06_class_shape_independent.
+Print Assumptions C06_harness_shapes.
